@@ -61,6 +61,8 @@ TrJitNew ==
   /\ UNCHANGED words
 TrSetRounds == IsEvent("set_rounds") /\ NoPanic /\ UNCHANGED <<gens, words>>
 TrTimer == IsEvent("timer") /\ UNCHANGED <<gens, words>>
+(* C19: unscripted background load on other threads does not concern the specification *)
+TrBg(e) == IsEvent(e) /\ NoPanic /\ UNCHANGED <<gens, words>>
 
 (* the twin: native-width calls only; its outputs ARE the word stream *)
 TrTwin(e) ==
@@ -89,7 +91,7 @@ TrFill ==
           /\ gens' = [gens EXCEPT ![Ev.g].pend = 0] /\ UNCHANGED words
 
 Init == l = 1 /\ gens = <<>> /\ words = <<>>
-Next == \/ TrReset \/ Ctor("from_seed") \/ Ctor("seed_from_u64") \/ TrJitNew \/ TrSetRounds \/ TrTimer
+Next == \/ TrReset \/ Ctor("from_seed") \/ Ctor("seed_from_u64") \/ TrJitNew \/ TrSetRounds \/ TrTimer \/ TrBg("bg_start") \/ TrBg("bg_stop")
         \/ TrTwin("next_u32") \/ TrTwin("next_u64")
         \/ TrNextU32 \/ TrNextU64 \/ TrFill
 Spec == Init /\ [][Next]_vars
